@@ -39,7 +39,19 @@ def pipeline_rule(ctx, fn, source, elem_edge_id, kind):
     bad = [n for n, c in all_calls(F, b) if BAD.search(n)]
     ctx.check(not bad, "%s:in-order-complete" % fn, "%s uses %s: elements can be skipped, defaulted, re-ordered or dropped" % (fn, sorted({x.split("::")[-1] for x in bad})), b.where(), detail="no filter/skip/take/rev/sort/dedup/default")
     rt = nosite(deep_strip(Terms(b).return_term()))
-    src_ok = contains(rt, lambda s: s == source)
+    # (`for x in slice` iterates through IntoIterator: the same sequence as slice.iter())
+    alt_src = ("call", "<I as std::iter::IntoIterator>::into_iter", (source[2][0],)) if source[0] == "call" and source[1].endswith("::iter") and len(source[2]) == 1 else None
+    src_ok = contains(rt, lambda s: s == source or (alt_src is not None and s == alt_src))
+    if not src_ok and source[0] == "call" and len(source[2]) == 1:
+        # the result is a vector filled by a loop over the source (one element per turn)
+        for e in elementwise_builds(b):
+            if e["form"] != "loop":
+                continue
+            sr = clean(e["src"])
+            while sr[0] == "call" and len(sr[2]) == 1 and re.search(r"::(into_iter|iter)$", sr[1]):
+                sr = sr[2][0]
+            if sr == source[2][0]:
+                src_ok = True
     ctx.check(src_ok, "%s:over-all-%s" % (fn, kind), "%s does not map over %s" % (fn, short(source)), b.where(), detail=short(source))
     # every geometry lookup: geoms.get(<edge id>.0) guarded by ok_or / ok_or_else
     n = 0
@@ -58,6 +70,18 @@ def pipeline_rule(ctx, fn, source, elem_edge_id, kind):
                 guards = [x for x in cb.calls() if x.callee and re.search(r"Option::<T>::ok_or(_else)?$", x.callee) and contains(tm.operand(x.args[0], x.bb), lambda s: s == ct)]
                 # (or the None arm of a match on the lookup returns an Err)
                 ctx.check(len(guards) >= 1 or none_is_err(cb, c, tm), "%s:missing=>Err" % fn, "a missing geometry is not turned into an Err", c.where(), detail="ok_or_else(missing edge id)")
+    if n == 0:
+        # the lookup may be delegated per element to create_edge_geometry / create_branch_geometry (both decided on their own:
+        # geoms[element's edge id], Err for a miss) — the element handed over must be the mapped one
+        for cb in [b] + closures_under(F, b):
+            tm = Terms(cb)
+            for c in cb.calls():
+                if c.callee in (OPS + "create_edge_geometry", OPS + "create_branch_geometry"):
+                    a0 = clean(tm.operand(c.args[0], c.bb))
+                    a1 = clean(tm.operand(c.args[1], c.bb))
+                    okd = (a0 == ("arg", 2) or (a0[0] == "field" and a0[1] == ("arg", 2)) or a0[0] == "call") and (a1 == ("arg", 2) and cb is b or (a1[0] == "field" and a1[1] == ("arg", 1)) or a1 == ("arg", 2))
+                    n += 1
+                    ctx.check(okd, "%s:lookup-by-edge-id" % fn, "the per-element geometry helper is not given the mapped element and the geometry table", c.where(), detail="helper(element, geoms)")
     ctx.check(n >= 1, "%s:has-lookup" % fn, "no geometry lookup found", b.where())
     # errors reach the caller: collect into Result + `?` (or the Result itself is returned)
     rows = [r for r in table(b, max_paths=100000) if r.end == "return"]
@@ -102,6 +126,44 @@ def R1_formats(ctx):
     ctx.check(not bad, "no-reordering", "generate_route_output uses %s" % bad, b.where())
     variants = {v["name"] for v in F.adts[FMT]["variants"]}
     ctx.check(variants == set(got), "all-formats", "formats %s vs rendered %s" % (sorted(variants), sorted(map(str, got))), b.where())
+
+
+def _append_whole(cb, ctm, crt):
+    """all coordinates of all inputs in order, written as one loop that appends each input's coordinate vector whole"""
+    loops = cb.natural_loops()
+    if len(loops) != 1:
+        return False
+    h, blocks = loops[0]
+    rows = [r for r in iteration_table(cb, h, stop_at_exit=True) if r.kind != "diverge"]
+    if not rows or not all(r.conds for r in rows):
+        return False
+    d0 = clean(rows[0].conds[0][0])
+    if not (d0[0] == "discr" and d0[1][0] == "call" and re.search(r"::next$", d0[1][1])):
+        return False
+    src = d0[1][2][0]
+    while src[0] == "call" and len(src[2]) == 1 and re.search(r"::into_iter$", src[1]):
+        src = src[2][0]
+    if src != ("call", "std::slice::<impl [T]>::iter", (("arg", 1),)) and src != ("arg", 1):
+        return False
+    ELEM = d0[1]
+    backs = [r for r in rows if r.kind == "back"]
+    sink = None
+    for r in backs:
+        adds = [clean(v) for _, k, v in r.sites if k and re.search(r"Vec::<T, A>::extend_from_slice$|Extend<.*>>::extend$|Vec::<T, A>::append$", k)]
+        if len(adds) != 1:
+            return False
+        a = adds[0]
+        what = a[2][1]
+        while what[0] == "call" and len(what[2]) == 1 and re.search(r"::(iter|into_iter|as_slice|to_vec)$|Iterator>?::(copied|cloned)$", what[1]):
+            what = what[2][0]
+        if what != ("field", ELEM, "0"):
+            return False
+        sink = a[2][0]
+    # the only way out is exhaustion, and the sink is what the result is built from
+    for r in rows:
+        if r.kind == "exit" and r.conds[0][1] != "None":
+            return False
+    return bool(backs) and sink is not None and contains(crt, lambda q: q == sink)
 
 
 def _nested_flatten(cb, ctm, crt):
@@ -150,8 +212,21 @@ def R2_geometry(ctx):
     rt = Terms(b).return_term()
     okg = bool(calls_in(rt, "ok_or_else") or calls_in(rt, "ok_or"))
     st = nosite(deep_strip(rt))
-    okg = okg and st == ("call", "std::slice::<impl [T]>::get", (("arg", 2), ("field", ("field", ("arg", 1), "edge_id"), "0")))
+    look_ = ("call", "std::slice::<impl [T]>::get", (("arg", 2), ("field", ("field", ("arg", 1), "edge_id"), "0")))
+    okg = okg and st == look_
+    if not okg:
+        # the same with a `match` on the lookup (possibly written out from a helper) and `.cloned()` on the result
+        t_ = clean(rt)
+        while t_[0] == "call" and len(t_[2]) == 1 and re.search(r"Result::<.*>::(cloned|copied)$|Result::<&T, E>::(cloned|copied)$", t_[1]):
+            t_ = t_[2][0]
+        alts_ = list(t_[1]) if t_[0] == "phi" else [t_]
+        oks_ = [agg_payload(a_) for a_ in alts_ if result_variant(a_) == "Ok"]
+        errs_ = [a_ for a_ in alts_ if result_variant(a_) == "Err" or is_err_value(a_)]
+        okg = bool(oks_) and all(o_ == look_ for o_ in oks_) and bool(errs_) and len(oks_) + len(errs_) == len(alts_)
     ctx.check(okg, "create_edge_geometry", "create_edge_geometry is not geoms[edge.edge_id.0] with Err for a miss", b.where(), detail="geoms.get(edge_id.0).ok_or_else")
+    bg = F.need(OPS + "create_branch_geometry")
+    brt = clean(Terms(bg).return_term())
+    ctx.check(brt == ("call", OPS + "create_edge_geometry", (("field", ("arg", 1), "edge_traversal"), ("arg", 2))), "create_branch_geometry", "create_branch_geometry is not create_edge_geometry(branch.edge_traversal, geoms)", bg.where(), detail="edge geometry of the branch's own traversal")
     # linestring: ids in route order, then lookups in id order, then concat
     lb = F.need(OPS + "create_route_linestring")
     ltm = Terms(lb)
@@ -180,7 +255,8 @@ def R2_geometry(ctx):
             okf = k[0] == "call" and k[1].endswith("::points") and k[2] == (("arg", 2),)
     else:
         # nested loops: for ls in linestrings.iter() { for p in ls.points() { all.push(p) } }
-        okf = okf and _nested_flatten(cb, ctm, crt)
+        # or one loop appending each input whole: for ls in linestrings.iter() { all.extend_from_slice(&ls.0) }
+        okf = okf and (_nested_flatten(cb, ctm, crt) or _append_whole(cb, ctm, crt))
     ctx.check(okf, "concat:all-points-in-order", "concat_linestrings is not flat_map(points) over all inputs in order (found forbidden adaptors %s)" % sorted({x.split("::")[-1] for x in bad}), cb.where(), detail="iter().flat_map(points)")
     # feature
     fb = F.need(OPS + "create_geojson_feature")
@@ -205,6 +281,16 @@ def R2_geometry(ctx):
         krt = nosite(deep_strip(Terms(k).return_term()))
         if krt[0] == "call" and krt[1] == fb.path:
             ok2 = krt[2] == (("field", ("arg", 1), "0"), ("arg", 2))
+    if not ok2:
+        # written as a loop (possibly shared with the tree output through a helper): the geometry handed over is the one
+        # looked up under the edge id of the very traversal handed over
+        for kb in tree_of(F, gb.path):
+            ktm = Terms(kb)
+            for c in kb.calls():
+                if c.callee == fb.path:
+                    a0, a1 = clean(ktm.operand(c.args[0], c.bb)), clean(ktm.operand(c.args[1], c.bb))
+                    want_ix = ("field", ("field", a0, "edge_id"), "0")
+                    ok2 = contains(a1, lambda q: q[0] == "call" and q[1] == "std::slice::<impl [T]>::get" and q[2][1] == want_ix)
     ctx.check(ok2, "geojson:same-traversal", "create_geojson_feature is not called with the traversal whose geometry was looked up", gb.where())
 
 
@@ -272,7 +358,11 @@ def R4_identifiers(ctx):
         for c in gets:
             ct = tm.call_term(c.term, c.bb)
             guards = [x for x in b.calls() if x.callee and re.search(r"Option::<T>::ok_or(_else)?$", x.callee) and contains(tm.operand(x.args[0], x.bb), lambda s: s == ct)]
-            ctx.check(bool(guards) and all(try_propagation(b, g, tm)["kind"] == "propagated" for g in guards), "miss=>Err", "a missing uuid row is not a propagated Err", c.where())
+            okm = bool(guards) and all(try_propagation(b, g, tm)["kind"] == "propagated" for g in guards)
+            if not guards:
+                # `match self.uuids.get(i) { Some(u) => .., None => Err(..) }` (possibly written out from a helper)
+                okm = none_is_err(b, c, tm)
+            ctx.check(okm, "miss=>Err", "a missing uuid row is not a propagated Err", c.where())
     # key names
     fb = F.need(U + "plugin::UUIDOutputPlugin::from_file")
     ftm = Terms(fb)
